@@ -1,4 +1,6 @@
 import CedarVerif.Lemmas.Ffi
+import CedarVerif.Lemmas.FfiPolicies
+import CedarVerif.Lemmas.FfiPoliciesIds
 /-
 C19 — JSON/FFI, stateful cache and CLI give exactly the API answers.
 
@@ -12,10 +14,25 @@ What is proved here (about the mirror in `Cedar/Ffi.lean`, for ARBITRARY parsers
 * `exit_code_table`, `authorize_exit_reflects_response` — the CLI's exit-code table is injective with the
   documented numbers, and `cedar authorize`'s status and printed line determine the response's decision.
 
-What is NOT proved here: that the FFI assembles its inputs as the Rust API does (policy-id assignment for text
-policies, template links, schema-directed context/entity parsing, request validation on/off, validation error
-ids, formatting, conversions) and that the real `stateful_is_authorized` tail equals the real `is_authorized`
-tail. Those equalities are checked by the differential run only (harness/src/c19.rs: FFI vs Rust API on generated
+* POLICY-SET ASSEMBLY (second part of this file; model `Cedar/FfiPolicies.lean` = mirror of `ffi::PolicySet::parse`,
+  `StaticPolicySet::parse`, `Policy::parse`, `Template::parse_and_add_to_set`, `TemplateLink::parse_and_add_to_set` in
+  cedar-policy/src/ffi/utils.rs, on top of the C08 model of `cedar_policy::PolicySet`):
+  `assemble_eq_api_history` / `assemble_ok_iff` — the FFI's set is the set built by the explicit API history
+  `add* ++ add_template* ++ link*` from the empty set, with the ids the FFI assigns (`policy{n}` by position for a
+  concatenated text, the map key for the map form, the default id for every element of the list form, template-map keys,
+  links' `newId`), it exists iff every document parses and every call of that history succeeds, and otherwise the error
+  list is exactly: static-part errors (all document errors, or the first failing `add`), then per template and per link, in
+  order, its document error or the error of its call — templates and links being processed from the EMPTY set after a
+  failed static part; `assemble_inv` — C08's invariants (`ApiPolicySet.WF`, core `WF`, `Strict`) hold of the result;
+  `assemble_ids` / `assemble_ids_collision` — policies = static ids ∪ link ids, templates = template ids, all distinct; a
+  collision is always reported; `assemble_authorize` — authorizing with the assembled set = authorizing with the API-built set.
+
+What remains trusted / NOT proved here: the text and EST-JSON parsers themselves (documents enter the model as the parser's
+verdict; text parser = C05), including that they assign the id they are given and that `Template::parse` refuses slot-less
+policies (`TemplatesHaveSlots`); serde's decoding of the JSON envelope (duplicate keys are refused there); the iteration
+order of the two `HashMap`s (the theorems hold for every order); schema-directed context/entity parsing, request validation
+on/off, validation error ids, formatting, conversions; and that the real `stateful_is_authorized` tail equals the real
+`is_authorized` tail. Those are checked by the differential run only (harness/src/c19.rs: FFI vs Rust API on generated
 inputs in every accepted input shape; cache histories vs this model; CLI runs vs API).
 
 Spec used below (defined in Lemmas/Ffi.lean, history = oldest call first):
@@ -140,7 +157,7 @@ theorem exit_code_table :
 
 /-- `cedar authorize`: status and printed line determine (and are determined by) the response's decision;
 `cedar validate`: 3 exactly when inputs were readable and validation did not pass -/
-theorem authorize_exit_reflects_response (ans : Answer Decision) :
+theorem authorize_exit_reflects_response (ans : Answer Ffi.Decision) :
     ((authorizeExit ans).report = 0 ↔ ans = .success .allow) ∧
     ((authorizeExit ans).report = 2 ↔ ans = .success .deny) ∧
     ((authorizeExit ans).report = 1 ↔ ans = .failure) ∧
@@ -158,5 +175,175 @@ theorem validate_exit_table (inputsOk passed pww deny : Bool) :
   cases inputsOk <;> cases passed <;> cases pww <;> cases deny <;> decide
 
 example : (authorizeExit (.success .deny)).report = 2 ∧ authorizePrinted (.success .deny) = some "DENY" := by decide
+
+end Cedar.C19
+
+/-! ## policy-set assembly: `ffi::PolicySet::parse` = an explicit history of API calls
+
+Model: `Cedar/FfiPolicies.lean` (mirror of cedar-policy/src/ffi/utils.rs); vocabulary: `Lemmas/FfiPolicies.lean`.
+  `staticAdds sp`    the static part's document-level outcome: the bodies WITH THEIR ASSIGNED IDS (`policy{n}` by position
+                     for a concatenated text; the map key for the map form; the default id "policy0" / "JSON policy" for every
+                     element of the list form) or the errors reported before any API call;
+  `tailItems f`      one item per template (in the map's iteration order) then one per link (in list order): a document
+                     error, or the API call `add_template (t with id)` / `link tid newId vals` with its error wrapper;
+  `apiHistoryOf bs f` = `[add b | b ∈ bs] ++ [add_template …]* ++ [link …]*` — the order of the Rust loops;
+  `runStrict s ops`  the history run from `s` where the first failing call aborts;
+  `errsOf s items`   the errors the FFI's loops collect from state `s` (a failing call logs and the loop continues). -/
+namespace Cedar.C19
+open Cedar Cedar.FfiP
+
+/-- C19 (assembly): `ffi::PolicySet::parse` computes exactly the API history `add* ++ add_template* ++ link*` from the
+empty set, and reports exactly these errors, in this order:
+* static documents that fail (all of them; or "static policy set includes a template"), or else the FIRST failing
+  `add` (`from_policies` aborts) — in both cases the templates and links are then processed FROM THE EMPTY SET and their
+  errors (including follow-ups such as `link` to a template that is there but whose static namesake is not) are appended;
+* then, per template and per link in order, the parse error of the document or the error of the API call. -/
+theorem assemble_eq_api_history (f : FfiPolicySet) :
+    assemble f =
+      (match staticAdds f.staticPolicies with
+       | .error es => .error (es ++ errsOf {} (tailItems f))
+       | .ok bs =>
+         match runStrict {} (bs.map ApiOp.add) with
+         | .error e => .error (staticWrap f.staticPolicies e :: errsOf {} (tailItems f))
+         | .ok s0 =>
+           if (errsOf s0 (tailItems f)).isEmpty then .ok (ApiPolicySet.run {} (apiHistoryOf bs f))
+           else .error (errsOf s0 (tailItems f))) := by
+  unfold assemble
+  rw [assembleSteps_eq, static_parse_eq]
+  cases hs : staticAdds f.staticPolicies with
+  | error es =>
+    have hne := staticAdds_error_ne_nil _ _ hs
+    cases es with
+    | nil => exact absurd rfl hne
+    | cons e es => simp
+  | ok bs =>
+    dsimp only
+    cases hr : runStrict {} (bs.map ApiOp.add) with
+    | error e => simp
+    | ok s0 =>
+      have h0 := runStrict_ok_run _ _ _ hr
+      dsimp only
+      rw [apiHistoryOf, api_run_append, ← h0]
+
+/-- C19 (assembly), success characterised: the FFI returns a set iff every document parses (static policies, templates,
+link values; no template among concatenated policies) and EVERY call of the explicit API history succeeds — and then it
+returns the set that history builds. -/
+theorem assemble_ok_iff (f : FfiPolicySet) (s : ApiPolicySet) :
+    assemble f = .ok s ↔
+      ∃ bs, staticAdds f.staticPolicies = .ok bs ∧ noBad (tailItems f) = true ∧
+        runStrict {} (apiHistoryOf bs f) = .ok s := by
+  rw [assemble_eq_api_history]
+  cases hs : staticAdds f.staticPolicies with
+  | error es => simp
+  | ok bs =>
+    dsimp only
+    simp only [Except.ok.injEq, exists_eq_left', apiHistoryOf, runStrict_append]
+    cases hr : runStrict {} (bs.map ApiOp.add) with
+    | error e => simp
+    | ok s0 =>
+      dsimp only
+      have h0 := runStrict_ok_run _ _ _ hr
+      by_cases he : errsOf s0 (tailItems f) = []
+      · obtain ⟨hb, s', hs'⟩ := (errsOf_nil_iff _ _).mp he
+        have h1 := runStrict_ok_run _ _ _ hs'
+        simp only [he, List.isEmpty_nil, if_true, Except.ok.injEq, hb, true_and, hs']
+        rw [api_run_append, ← h0, ← h1]
+      · have hne : (errsOf s0 (tailItems f)).isEmpty = false := by
+          cases h : errsOf s0 (tailItems f) with
+          | nil => exact absurd h he
+          | cons _ _ => rfl
+        simp only [hne, Bool.false_eq_true, if_false, reduceCtorEq, false_iff, not_and]
+        intro hb hr'
+        exact he ((errsOf_nil_iff _ _).mpr ⟨hb, s, hr'⟩)
+
+/-- C19 (assembly): a set the FFI returns satisfies the C08 invariants of API-built sets: the API layer's `WF`, the
+core representation invariant (no id shared between maps except the two halves of a static policy, every link's
+template present, `template_to_links_map` exact) and `Strict` (the hypothesis of C08 `merge_inv`).
+Hypothesis: the template parser returns templates with at least one slot (`Template::parse`: trusted, C05). -/
+theorem assemble_inv (f : FfiPolicySet) (s : ApiPolicySet) (hs : f.TemplatesHaveSlots) (h : assemble f = .ok s) :
+    s.WF ∧ s.ast.WF ∧ s.ast.Strict := by
+  obtain ⟨bs, _, _, hr⟩ := (assemble_ok_iff f s).mp h
+  have h0 := runStrict_ok_run _ _ _ hr
+  have wt := apiHistoryOf_wellTyped bs f hs
+  subst h0
+  have wf := ApiPolicySet.run_wf _ {} ApiPolicySet.wf_empty wt
+  exact ⟨wf, wf.ast, ApiPolicySet.run_strict _ {} ApiPolicySet.wf_empty (by intro k p h; simp at h) wt⟩
+
+/-- C19 (assembly), corollary: authorizing with the set the FFI assembled is authorizing (C01's `isAuthorized` over
+`PolicySet::policies()`) with the set the Rust API builds by the explicit history. -/
+theorem assemble_authorize (f : FfiPolicySet) (s : ApiPolicySet) (h : assemble f = .ok s) (req : Request) (es : Entities) :
+    s.authorize req es = (ApiPolicySet.run {} (apiHistory f)).authorize req es ∧
+    s.authorize req es = isAuthorized req es (ApiPolicySet.run {} (apiHistory f)).ast.policies := by
+  obtain ⟨bs, hb, _, hr⟩ := (assemble_ok_iff f s).mp h
+  have h0 := runStrict_ok_run _ _ _ hr
+  have : apiHistory f = apiHistoryOf bs f := by simp [apiHistory, hb]
+  rw [this, ← h0]
+  exact ⟨rfl, rfl⟩
+
+/-- C19 (assembly): the ids of the set the FFI returns are exactly the ids it assigned: the policies (`policies()` of
+the API, = the core `links`) are the static ids (`policy{n}` by position | the default id per list element | the map
+keys) and the links' `newId`s; the templates (`templates()`) are the keys of the `templates` map; and all these ids are
+pairwise distinct — ANY collision (between two static policies, a template and a policy, a link and anything) is reported
+as an error instead (contrapositive, `assemble_ids_collision`). Via the C08 refinement (`api_op_refines_spec`). -/
+theorem assemble_ids (f : FfiPolicySet) (s : ApiPolicySet) (hs : f.TemplatesHaveSlots) (h : assemble f = .ok s) :
+    (∀ k, (s.policies.get? k).isSome = true ↔ k ∈ staticIds f.staticPolicies ∨ k ∈ f.linkIds) ∧
+    (∀ k, (s.ast.links.get? k).isSome = true ↔ k ∈ staticIds f.staticPolicies ∨ k ∈ f.linkIds) ∧
+    (∀ k, (s.templates.get? k).isSome = true ↔ k ∈ f.templateIds) ∧
+    (staticIds f.staticPolicies ++ f.templateIds ++ f.linkIds).Nodup := by
+  obtain ⟨bs, hb, hnb, hr⟩ := (assemble_ok_iff f s).mp h
+  obtain ⟨h1, h2, h3, h4⟩ := runStrict_ids bs f s hs hnb hr
+  rw [staticAdds_ids _ _ hb] at h1 h2 h4
+  exact ⟨h2, h1, h3, h4⟩
+
+/-- no collision goes unreported: if two of the assigned ids coincide, `ffi::PolicySet::parse` returns errors -/
+theorem assemble_ids_collision (f : FfiPolicySet) (hs : f.TemplatesHaveSlots)
+    (hc : ¬ (staticIds f.staticPolicies ++ f.templateIds ++ f.linkIds).Nodup) : ∃ es, assemble f = .error es := by
+  cases h : assemble f with
+  | error es => exact ⟨es, rfl⟩
+  | ok s => exact absurd (assemble_ids f s hs h).2.2.2 hc
+
+/-! ### non-vacuity: two static policies in the map form (one Cedar text, one EST JSON), one template, two links -/
+
+def demoBody : TemplateBody :=
+  { id := "", annotations := [], effect := .permit, principalC := .any, actionC := .any, resourceC := .any, nonScope := none }
+def demoTemplate : Template := { body := { demoBody with principalC := .eq .slot }, slots := [.principal] }
+def demoVals : SlotVals := { principal := some ⟨"User", "alice"⟩ }
+/-- the second link's id is a parameter: "l2" is fresh, "p1" collides with a static policy -/
+def demoFfi (secondLinkId : String) : FfiPolicySet :=
+  { staticPolicies := .map [("p1", ⟨.cedar, some demoBody⟩), ("p2", ⟨.json, some { demoBody with effect := .forbid }⟩)],
+    templates := [("t", ⟨.cedar, some demoTemplate⟩)],
+    templateLinks := [⟨"t", "l1", some demoVals⟩, ⟨"t", secondLinkId, some demoVals⟩] }
+
+/-- success: ids as assigned, in the order of the history; the history is the expected five calls -/
+example :
+    (match assemble (demoFfi "l2") with
+     | .ok s => some (s.policies.keys, s.templates.keys, s.ast.links.keys, s.ast.templates.keys)
+     | .error _ => none) = some (["p1", "p2", "l1", "l2"], ["t"], ["p1", "p2", "l1", "l2"], ["p1", "p2", "t"]) ∧
+    (apiHistory (demoFfi "l2")).length = 5 ∧ (demoFfi "l2").TemplatesHaveSlots := by
+  refine ⟨by decide +kernel, by decide +kernel, ?_⟩
+  intro e t he ht
+  simp only [demoFfi, List.mem_singleton] at he
+  subst he
+  cases ht
+  simp [demoTemplate]
+/-- a duplicate link id: exactly one error, `link`'s `PolicyIdConflict`; the other four calls succeeded -/
+example : (match assemble (demoFfi "p1") with | .ok _ => none | .error es => some es) = some [.link .idConflict] := by
+  decide +kernel
+/-- the list form gives every Cedar-text element the id "policy0": two elements collide in `from_policies` (reported
+once, the first failing `add` aborts); template and links are then processed from the empty set and, here, succeed -/
+example : (match assemble { demoFfi "l2" with staticPolicies := .set [⟨.cedar, some demoBody⟩, ⟨.cedar, some demoBody⟩] } with
+           | .ok _ => none | .error es => some es) = some [.fromPolicies .alreadyDefined] := by
+  decide +kernel
+/-- a concatenated text: ids by position; a template among the statements is refused -/
+example :
+    (match assemble { demoFfi "l2" with staticPolicies := .concatenated (some [.static demoBody, .static demoBody]) } with
+     | .ok s => some s.ast.links.keys | .error _ => none) = some ["policy0", "policy1", "l1", "l2"] ∧
+    (match assemble { demoFfi "l2" with staticPolicies := .concatenated (some [.static demoBody, .template demoTemplate]) } with
+     | .ok _ => none | .error es => some es) = some [.templateInStatic] := by
+  decide +kernel
+/-- a template document that does not parse and a link to it: both errors, in loop order -/
+example : (match assemble { demoFfi "l2" with templates := [("t", ⟨.cedar, none⟩)] } with | .ok _ => none | .error es => some es)
+    = some [.parseTemplate "t", .link .noSuchTemplate, .link .noSuchTemplate] := by
+  decide +kernel
 
 end Cedar.C19
